@@ -180,6 +180,8 @@ def proj_get(v, p):
             if v.variant != a:
                 raise Unmodelled(f'downcast {a} of {v!r}')
             return v
+        if hasattr(v, 'proj_downcast'):
+            return v.proj_downcast(a)
         raise Unmodelled(f'downcast of {type(v).__name__}')
     if k == 'deref':
         if isinstance(v, Ref):
@@ -378,6 +380,16 @@ def num_arith(op, a, b, wrapping=True):
         else:
             r = x % y
         return Num(r, bits, signed)
+    elif op in ('BitXor', 'BitOr') or (op == 'BitAnd' and not (a.concrete or b.concrete)):
+        # bitwise operations on symbolic machine integers: exact, through the bit-vector view of both operands
+        # (int2bv / bv2int); unsigned only, used for narrow values (byte-wise comparisons)
+        if signed: raise Unmodelled(f'{op} on signed symbolic integers in integer encoding')
+        if a.concrete and b.concrete:
+            v = {'BitXor': a.e ^ b.e, 'BitOr': a.e | b.e, 'BitAnd': a.e & b.e}[op]
+            return Num(v & ((1 << bits) - 1), bits, signed)
+        xb = z3.Int2BV(x if not isinstance(x, int) else z3.IntVal(x), bits); yb = z3.Int2BV(y if not isinstance(y, int) else z3.IntVal(y), bits)
+        rb = xb ^ yb if op == 'BitXor' else (xb | yb if op == 'BitOr' else xb & yb)
+        return Num(z3.BV2Int(rb, False), bits, signed)
     elif op == 'BitAnd':
         if not (a.concrete or b.concrete): raise Unmodelled('bit-and of symbolic integers in integer encoding')
         mask = (b.e if b.concrete else a.e) & ((1 << bits) - 1)
